@@ -236,6 +236,49 @@ theorem contract_loops_as_modelled : solLoopShape = true ∧ ralLoopShape = true
 checked multiplication revert for large sets). -/
 theorem sol_quorum_full_width : solQuorumWidth = 256 := by decide
 
+/-! ## "for the guardian set of size n": the n is the size of the set the VAA names -/
+
+/-- **`verifyVM`'s count guard reads the key count of the set the VAA names** - the set stored under the VAA's own
+`guardianSetIndex`, not the current one (fact re-extracted on every run: every `<set>.keys.length` operand of the guard resolved
+through `verifyVM`'s straight-line locals and the two `Getters.sol` getters). -/
+theorem sol_guard_reads_named_set : solGuardSet = "named" := by decide
+
+/-- **`parseAndVerifyVAA`'s `guardianSize` is the size of the set the VAA names** (`getGuardiansInfo` of bytes 1..5 of the VAA,
+resolved through the function's `let`s; `getGuardiansInfo` hands out slot `i` for `guardianSetIndexes[i]`). -/
+theorem ral_guard_reads_named_set : ralGuardSet = "named" := by decide
+
+/-- … so on the contracts' stored sets - whatever the current set is, in particular after a rotation that changed the size - a
+VAA is judged exactly as `solAccepts` / `ralAccepts` judge it against the set it names: the theorems above
+(`node_complete_accepted_on_chain`, `accepted_on_chain_is_node_complete`) speak about what the contracts do. -/
+theorem verify_on_stored_sets_judges_named_set (recover : Bytes → Option Addr) (st : ChainSets) (i : Nat) (sigs : List Sig) :
+    solVerifyVM solGuardSet solQuorum recover st i sigs = solAccepts solQuorum recover sigs (st.sets i) ∧
+    ralVerifyVAA ralGuardSet ralQuorum recover st i sigs = ralAccepts ralQuorum recover sigs (st.sets i) := by
+  rw [sol_guard_reads_named_set, ral_guard_reads_named_set]
+  exact ⟨rfl, rfl⟩
+
+/-- Why the fact matters (the model with the guard reading the CURRENT set's size): after a rotation from four guardians to one,
+a VAA naming the four-key set with ONE valid signature passes (`q 4 = 3`); after a rotation from one guardian to four, the
+complete one-signature VAA naming the one-key set is refused. -/
+theorem guard_on_current_set_witness :
+    let rec1 : Bytes → Option Addr := fun s => match s with | [10] => some [1] | _ => none
+    let shrunk : ChainSets := ⟨fun i => if i = 0 then [[1], [2], [3], [4]] else if i = 1 then [[9]] else [], 1⟩
+    let grown : ChainSets := ⟨fun i => if i = 0 then [[1]] else if i = 1 then [[1], [2], [3], [4]] else [], 1⟩
+    (solVerifyVM "current" solQuorum rec1 shrunk 0 [⟨0, [10]⟩] = true ∧ ralVerifyVAA "current" ralQuorum rec1 shrunk 0 [⟨0, [10]⟩] = true ∧
+      [(⟨0, [10]⟩ : Sig)].length < q (shrunk.sets 0).length) ∧
+    (solVerifyVM "current" solQuorum rec1 grown 0 [⟨0, [10]⟩] = false ∧ ralVerifyVAA "current" ralQuorum rec1 grown 0 [⟨0, [10]⟩] = false ∧
+      verifySignatures rec1 [⟨0, [10]⟩] (grown.sets 0) = true ∧ goQuorum (grown.sets 0).length ≤ [(⟨0, [10]⟩ : Sig)].length) := by
+  decide
+
+/-- Non-vacuity of `verify_on_stored_sets_judges_named_set`: the same two states, guard on the named set - the one-signature VAA
+is refused for the four-key set and accepted for the one-key set, whatever the current set. -/
+example :
+    let rec1 : Bytes → Option Addr := fun s => match s with | [10] => some [1] | _ => none
+    let shrunk : ChainSets := ⟨fun i => if i = 0 then [[1], [2], [3], [4]] else if i = 1 then [[9]] else [], 1⟩
+    let grown : ChainSets := ⟨fun i => if i = 0 then [[1]] else if i = 1 then [[1], [2], [3], [4]] else [], 1⟩
+    solVerifyVM solGuardSet solQuorum rec1 shrunk 0 [⟨0, [10]⟩] = false ∧ ralVerifyVAA ralGuardSet ralQuorum rec1 shrunk 0 [⟨0, [10]⟩] = false ∧
+    solVerifyVM solGuardSet solQuorum rec1 grown 0 [⟨0, [10]⟩] = true ∧ ralVerifyVAA ralGuardSet ralQuorum rec1 grown 0 [⟨0, [10]⟩] = true := by
+  decide
+
 /-- Non-vacuity: 3 of 4 guardians, signatures at indices 0, 2, 3 — complete for the node and accepted by both contracts. -/
 example :
     let rec4 : Bytes → Option Addr := fun s => match s with | [10] => some [1] | [30] => some [3] | [40] => some [4] | _ => none
